@@ -204,6 +204,7 @@ func partitionCase(idx int64, r *rand.Rand) {
 		core.Strategy
 		Limit() int
 	}
+	var look *strategy.LookupPartitionStrategy
 	if r.IntN(2) == 0 {
 		ps := map[string]*strategy.LookupPartition{}
 		for i, n := range names {
@@ -213,7 +214,7 @@ func partitionCase(idx int64, r *rand.Rand) {
 		if err != nil {
 			panic(err)
 		}
-		s = st
+		s, look = st, st
 	} else {
 		kind = "predicate"
 		var ps []*strategy.PredicatePartition
@@ -233,7 +234,9 @@ func partitionCase(idx int64, r *rand.Rand) {
 		}
 		return v
 	}
-	bins := make([]int, len(names)+1) // last = unknown (lookup)
+	bins := make([]int, len(names)+1) // names..., unknown (lookup); a partition added later for the key "zz" gets a further slot
+	unknownBin := len(names)
+	zzBin := unknownBin // where requests for "zz" are accounted: the unknown bin until a partition is added under that key
 	total := 0
 	type h struct {
 		t core.StrategyToken
@@ -253,6 +256,8 @@ func partitionCase(idx int64, r *rand.Rand) {
 			key := "zz"
 			if b < len(names) {
 				key = names[b]
+			} else {
+				b = zzBin
 			}
 			ctx := context.WithValue(context.Background(), matchers.LookupPartitionContextKey, key)
 			ctx = context.WithValue(ctx, matchers.StringPredicateContextKey, key)
@@ -271,7 +276,7 @@ func partitionCase(idx int64, r *rand.Rand) {
 			total++
 			held = append(held, h{tok, b})
 			wantTag := "partition:" + key
-			if b == len(names) {
+			if b == unknownBin {
 				wantTag = "partition:<unknown>"
 			}
 			if len(e) != 1 || e[0].Kind != "distribution" || e[0].ID != core.MetricInFlight || e[0].Value != float64(bins[b]) || len(e[0].Tags) != 1 || e[0].Tags[0] != wantTag {
@@ -292,6 +297,21 @@ func partitionCase(idx int64, r *rand.Rand) {
 				fail("sample-emitted-on-release", rt.J{"events": e})
 				return
 			}
+		case look != nil && r.IntN(2) == 0:
+			// the table changes while tokens are outstanding: a token gives its unit back to the bin it was taken from,
+			// whatever the key it came in under maps to by then
+			if zzBin == unknownBin {
+				look.AddPartition("zz", strategy.NewLookupPartitionWithMetricRegistry("zz", 1.0/64, 1, reg))
+				bins = append(bins, 0)
+				zzBin = len(bins) - 1
+				ops = append(ops, fmt.Sprintf("AddPartition(zz) with %d unknown-bin tokens outstanding", bins[unknownBin]))
+			} else {
+				look.RemovePartition("zz")
+				ops = append(ops, fmt.Sprintf("RemovePartition(zz) with %d of its tokens outstanding", bins[zzBin]))
+				zzBin = unknownBin
+			}
+			rt.Count("lookup_table_changes_with_tokens_outstanding", 1)
+			reg.Drain()
 		default:
 			v := r.IntN(14)
 			s.SetLimit(v)
@@ -1061,7 +1081,46 @@ func addrCase(idx int64, r *rand.Rand) {
 			"want_line_prefix": wantPrefix, "wire_line": found})
 		return
 	}
-	rt.Distinct(fmt.Sprintf("addr|%s|%d", prefix, kind))
+	// the registry is started and stopped (Stop ends the poller, nothing else): samples offered afterwards are still
+	// forwarded, through the same listener and through one registered after the Stop
+	if r.IntN(2) == 0 {
+		rt.Distinct(fmt.Sprintf("addr|%s|%d", prefix, kind))
+		return
+	}
+	lateListener := mr.RegisterDistribution(id + "late")
+	mr.Start()
+	if r.IntN(2) == 0 {
+		mr.Start()
+	}
+	mr.Stop()
+	id2 := id + "after"
+	l2 := mr.RegisterDistribution(id2)
+	seen2, seenLate := false, false
+	for tries := 0; tries < 40 && !(seen2 && seenLate); tries++ {
+		l2.AddSample(v) // offered again on every try: one datagram that gets through is enough
+		lateListener.AddSample(v)
+		pc.SetReadDeadline(time.Now().Add(250 * time.Millisecond))
+		n, _, err := pc.ReadFrom(buf)
+		if err != nil {
+			continue
+		}
+		for _, ln := range strings.Split(string(buf[:n]), "\n") {
+			if strings.HasPrefix(ln, want+id2+":") {
+				seen2 = true
+			}
+			if strings.HasPrefix(ln, want+id+"late:") {
+				seenLate = true
+			}
+		}
+	}
+	rt.Count("samples_after_a_stop_checked_via_udp", 1)
+	if !seen2 || !seenLate {
+		rt.Violation("C20/datadog/samples-offered-after-Stop-never-reach-the-backend", idx, rt.J{"constructor": "NewMetricRegistry(addr)", "prefix": prefix,
+			"listener_registered_after_the_stop_forwarded": seen2, "listener_registered_before_the_start_forwarded": seenLate,
+			"note": "the first sample of this case did arrive at the same loop-back socket; these were offered 40 times over 10 s"})
+		return
+	}
+	rt.Distinct(fmt.Sprintf("addr|%s|%d|restart", prefix, kind))
 }
 
 // ---------------------------------------------------------------- B3: life cycle
